@@ -96,6 +96,11 @@ func (l *l1) step(ops []kit.Op) (*stepInfo, *mismatch) {
 			info.Model = pre
 			return info, nil
 		}
+		if pre.CrossTableDangling {
+			info.Excluded = "cross-table-uuid:dangling-reference-to-a-uuid-of-another-table"
+			info.Model = pre
+			return info, nil
+		}
 	}
 	l.steps++
 	l.DB.ViaServer = l.steps%2 == 0
